@@ -315,7 +315,14 @@ func (w *World) WriteStriped(v int, srcTy string, ins [][]int64, nils []bool) {
 			in[c] = []int64{}
 		}
 	}
-	w.emit(&Event{Op: "WriteStriped", Args: []int{v + 1}, Ty: srcTy, In: in, Nils: nilInts(nils), Res: res, Cnt: cnt, Allocs: lastAllocs})
+	lens := make([]int, len(in))
+	for c := range in {
+		lens[c] = len(in[c])
+	}
+	if !concurrentRecording && rowLensAfter != nil && len(rowLensAfter) == len(in) {
+		lens = rowLensAfter // what the caller's rows look like after the call
+	}
+	w.emit(&Event{Op: "WriteStriped", Args: []int{v + 1}, Ty: srcTy, In: in, Nils: nilInts(nils), Lens: lens, Res: res, Cnt: cnt, Allocs: lastAllocs})
 }
 
 func (w *World) Read(v int, dstTy string, n int) {
